@@ -12,6 +12,7 @@ import (
 type M = map[string]any
 
 type Gen struct {
+	seed uint64
 	r    *rand.Rand
 	feat map[string]int // feature histogram of the current case
 
@@ -34,6 +35,7 @@ type Gen struct {
 
 func NewGen(seed, stream uint64) *Gen {
 	return &Gen{
+		seed:         seed,
 		r:            rand.New(rand.NewPCG(seed, stream)),
 		feat:         map[string]int{},
 		MaxDepth:     4,
